@@ -24,3 +24,8 @@ func loadReplayCases[T any](path string) []T {
 }
 
 func jsonUnmarshal(b []byte, v interface{}) error { return json.Unmarshal(b, v) }
+
+func fileExists(p string) bool {
+	_, err := os.Stat(p)
+	return err == nil
+}
